@@ -20,7 +20,11 @@
      (and for every enumeration order of the sub-tree: C03_subtree_any_order, which is what
      makes the dict-order model of get_obj agree with pygtrie's order).
    * C03_schedule is an equation with a right-hand side free of threshold, jobs, delivery order,
-     sizes and cache answers, plus the two-run corollary. *)
+     sizes and cache answers (C03_schedule_files / _oid), plus the two-run corollaries: same walk
+     (C03_schedule) and any other walk / listdir order (C03_schedule_walk).
+   * Necessity results (each hypothesis clause is needed; none of these inputs can come from a
+     file system walk of valid UTF-8 names with a real hash algorithm): C03_perm_separator_refuted,
+     C03_inj_surrogates_refuted, C03_inj_separator_refuted, C03_inj_relpath_name_refuted. *)
 From Coq Require Import NArith List Bool Permutation.
 From DvcData Require Import Base.Val Base.MD5 Base.Json Model.Listing Model.HashSched.
 From DvcData Require Import Proofs.ListingSort Proofs.ListingProofs Proofs.JsonProofs Proofs.ListingInj Proofs.HashSchedProofs.
@@ -87,6 +91,19 @@ Theorem C03_inj_surrogates_refuted : exists t t',
 Proof. exact as_bytes_inj_surrogates_refuted. Qed.
 Print Assumptions C03_inj_surrogates_refuted.
 
+(* the other clauses of Wf are necessary too *)
+Theorem C03_inj_separator_refuted : exists t t',
+  NoDupKeys t /\ NoDupKeys t' /\
+  as_bytes false t = as_bytes false t' /\ ~ Permutation (map obs t) (map obs t').
+Proof. exact as_bytes_inj_separator_refuted. Qed.
+Print Assumptions C03_inj_separator_refuted.
+
+Theorem C03_inj_relpath_name_refuted : exists t t',
+  KeysOk t /\ KeysOk t' /\ NoDupKeys t /\ NoDupKeys t' /\
+  as_bytes false t = as_bytes false t' /\ ~ Permutation (map obs t) (map obs t').
+Proof. exact as_bytes_inj_relpath_name_refuted. Qed.
+Print Assumptions C03_inj_relpath_name_refuted.
+
 (* ---- serialise, re-parse ---- *)
 Theorem C03_roundtrip : forall t, Wf t -> NoDupKeys t ->
   exists t', from_bytes None (as_bytes false t) = FlOk t' /\
@@ -94,6 +111,15 @@ Theorem C03_roundtrip : forall t, Wf t -> NoDupKeys t ->
     as_bytes false t' = as_bytes false t /\ digest t' = digest t.
 Proof. exact from_bytes_as_bytes. Qed.
 Print Assumptions C03_roundtrip.
+
+(* Tree.load from a legacy md5-dos2unix store (hash_name = "md5-dos2unix") *)
+Theorem C03_roundtrip_dos2unix : forall t, Wf t -> NoDupKeys t ->
+  (forall e, In e t -> md5_valued (obs e)) ->
+  exists t', from_bytes (Some s_md5_dos2unix) (as_bytes false t) = FlOk t' /\
+    map obs t' = sorted_obs t /\ Permutation (map obs t') (map obs t) /\
+    as_bytes false t' = as_bytes false t /\ digest t' = digest t.
+Proof. exact from_bytes_as_bytes_d2u. Qed.
+Print Assumptions C03_roundtrip_dos2unix.
 
 Theorem C03_json_parse_print : forall d, wf_doc d = true -> parse_doc (print_doc d) = Some d.
 Proof. exact parse_print. Qed.
